@@ -17,7 +17,7 @@ INFO = dict(
               'order; inputs complete at call time count first, in input order) and stays so, fails only when all failed, with the last failure; '
               'Unwrap = innermost plain value or first failure of a nested chain; ContinueWith runs its continuation exactly once after completion '
               'and captures value or raised exception; Map calls its function only for successes.',
-  bounds={'quick': 'n <= 3 inputs (n = 0 for WhenAll included), Unwrap depth <= 3', 'thorough': 'n <= 4 inputs, Unwrap depth <= 4'},
+  bounds={'quick': 'n <= 3 inputs (n = 0 for WhenAll included), Unwrap depth <= 3', 'thorough': 'n <= 5 inputs, Unwrap depth <= 5'},
   outside=['more inputs / deeper nesting', 'WhenAny of no inputs (no first/last input exists)'],
   stubs=['virtual-time loop (3.1); real gevent AsyncResult/links/greenlets'],
   assumptions=['A1, A3'],
@@ -27,11 +27,11 @@ EXPECT_COVERS = ['whenany-precompleted-failure-then-success', 'whenany-late-fail
 
 
 def jobs(tier):
-  mx = 3 if tier == 'quick' else 4
+  mx = 3 if tier == 'quick' else 5
   js = []
   for n in range(0, mx + 1):
-    js.append(dict(name='whenall-n%d' % n, op='whenall', n=n, cost=6 ** n, shards=1 if n < 3 else (8 if n == 3 else 32), shard_depth=2 * n))
-    if n: js.append(dict(name='whenany-n%d' % n, op='whenany', n=n, cost=6 ** n, shards=1 if n < 3 else (8 if n == 3 else 32), shard_depth=2 * n))
+    js.append(dict(name='whenall-n%d' % n, op='whenall', n=n, cost=6 ** n, shards=1 if n < 3 else (8 if n == 3 else (32 if n == 4 else 128)), shard_depth=2 * n))
+    if n: js.append(dict(name='whenany-n%d' % n, op='whenany', n=n, cost=6 ** n, shards=1 if n < 3 else (8 if n == 3 else (32 if n == 4 else 128)), shard_depth=2 * n))
   for d in range(1, mx + 1):
     js.append(dict(name='unwrap-d%d' % d, op='unwrap', n=d, cost=4 ** d))
   js.append(dict(name='continue', op='continue', n=1, cost=5))
